@@ -38,6 +38,7 @@ void run_allocator(vfz::Dec& d, std::string& desc, bool& nontrivial) {
   babylon::IdAllocator<T> alloc;
   std::map<uint32_t, VV> held;  // value -> id
   std::set<uint32_t> freed;
+  std::set<uint64_t> issued;  // value@version pairs are never issued twice (fewer deallocations than the version can count)
   uint32_t next = 0;
   int reused = 0;
   desc += sizeof(T) == 2 ? "alloc16:" : "alloc32:";
@@ -62,6 +63,8 @@ void run_allocator(vfz::Dec& d, std::string& desc, bool& nontrivial) {
     if (next >= 600 && freed.empty()) return;
     VV id = alloc.allocate();
     if (held.count(id.value)) vfz::fail(desc, "allocate returned %u which is still held", (unsigned)id.value);
+    if (!issued.insert(((uint64_t)id.value << 32) | id.version).second)
+      vfz::fail(desc, "allocate returned %u@%u a second time", (unsigned)id.value, (unsigned)id.version);
     if (!freed.empty()) {
       if (!freed.count(id.value)) vfz::fail(desc, "allocate returned %u (end %u) although %zu freed values exist", (unsigned)id.value, next, freed.size());
       freed.erase(id.value);
@@ -129,6 +132,7 @@ void run_box(vfz::Dec& d, std::string& desc, bool& nontrivial) {
     std::vector<VV> stale;
     std::map<uint32_t, int> uses;               // slot -> number of emplaces
     std::set<uint32_t> occupied;
+    std::set<uint64_t> receipts;                // every (slot, version) ever issued
     std::set<uint32_t> free_slots;              // released (finished) slots
     uint32_t nslots = 0;
     uint64_t next_x = 1;
@@ -175,6 +179,8 @@ void run_box(vfz::Dec& d, std::string& desc, bool& nontrivial) {
           uint64_t x = next_x++;
           VV id = box.emplace(x);
           if (occupied.count(id.value)) vfz::fail(desc, "emplace reused slot %u whose item is still deposited or held", id.value);
+          if (!receipts.insert(((uint64_t)id.value << 32) | id.version).second)
+            vfz::fail(desc, "emplace returned receipt (slot %u version %u) a second time", id.value, id.version);
           // released slots go back to the box's id allocator: reuse before a new slot is minted
           if (!free_slots.empty()) {
             if (!free_slots.count(id.value))
